@@ -21,5 +21,6 @@ def run(ctx, rep):
     from props import c19
     c19.rule_gate(rep, lg['logos_codegen'])
     gen.rules_c03(ctx, rep)
+    gen.rule_must_reject(ctx, rep, gen.configs(ctx), ['empty_match'], floor=6)
     rep.trusted += ['rustc nightly MIR', 'rustc macro expansion (-Zunpretty=expanded)', 'syn', 'engines/mirfacts', 'engines/genscan', 'lib/genlib.py']
     rep.assumptions += ['user callbacks return', 'regex-automata: has_empty() is true iff some pattern matches the empty string']
